@@ -49,6 +49,10 @@ func init() {
 		t.expect("I")
 		k := t.int()
 		length := t.int()
+		if !sacTraceAvailable {
+			fmt.Fprintln(w, "UNAVAILABLE")
+			return
+		}
 		if len(ps) != 22 || len(ss) < 6 || k != 2 {
 			fmt.Fprintln(w, "BADCASE")
 			return
